@@ -49,4 +49,8 @@ def choose (l : List Entry) : Option Nat × List Entry :=
     let l' := if acc.best.isSome ∧ acc.bestLost ≥ maxLost then clamp l else l
     ((match acc.best with | some b => some b | none => acc.first), l')
 
+/-- what every connecter (tcpconnect, tlsconnect, dtlsconnect) does to the server's state when it is entered: a connected
+    server becomes "reconnecting"; a server that is starting up — plainly or in blocking mode — stays what it is -/
+def connectStart (st : Nat) : Nat := if st = stConnected then stReconnecting else st
+
 end Rsp.Choose
